@@ -3,6 +3,7 @@
 //! subprocess; an abnormal worker exit is reported by the parent.
 
 mod abi;
+mod c08l;
 mod c14;
 mod c19;
 
@@ -12,7 +13,7 @@ use vh::runner::{install_panic_hook, start_watchdog, Env, Tier, VERIF};
 fn main() {
     let args: Vec<String> = std::env::args().collect();
     if args.len() < 2 {
-        eprintln!("usage: vh-loader <C14|C19> [--tier quick|thorough] [--replay FILE]");
+        eprintln!("usage: vh-loader <C08|C14|C19> [--tier quick|thorough] [--replay FILE]");
         std::process::exit(2);
     }
     let prop = args[1].to_uppercase();
@@ -54,6 +55,7 @@ fn main() {
     start_watchdog(if env.tier == Tier::Quick { 900 } else { 7200 }, &prop);
     println!("== {} tier={:?} seed={} threads={} ==", prop, env.tier, env.seed, env.threads);
     let code = match prop.as_str() {
+        "C08" => c08l::run(&env),
         "C14" => c14::run(&env),
         "C19" => c19::run(&env),
         _ => {
